@@ -94,6 +94,8 @@ pub struct ModResult {
     pub sample: Option<Value>,
     pub nontrivial_hashes: Vec<u64>,
     pub extra: Vec<(String, u64)>,
+    /// data handed back to the driver for cross-module comparisons (twins)
+    pub payload: Option<Value>,
 }
 
 pub fn c01_module(p: &Placed, server: &mut Server, nvalues: usize, seed: u64) -> ModResult {
@@ -786,6 +788,7 @@ pub fn module_check(property: &str, p: &Placed, server: &mut Server, cwd: &std::
     match property {
         "C12" => c12_module(p, server, if thorough { 256 } else { 64 }, ctx.seed),
         "C03" | "C04" | "C11" => crate::e2x::export_module(p, server, cwd, property, ctx.seed, false),
+        "C15" => crate::e2d::c15_module(p, server, cwd),
         "C01" => c01_module(p, server, if thorough { 256 } else { 64 }, ctx.seed),
         "C02" => c02_module(p, server, 48, if thorough { 96 } else { 32 }, ctx.seed),
         _ => inconclusive("no module check for this property"),
@@ -813,6 +816,9 @@ pub fn replay_module(ctx: &Ctx, property: &str, case: &Value) -> Vec<Value> {
     let module: typegen::Module = serde_json::from_value(inner["module"].clone()).unwrap_or_else(|e| inconclusive(&format!("replay file has no module: {e}")));
     let mut sub = Ctx::new(&ctx.tier);
     sub.seed = case["seed"].as_u64().unwrap_or(ctx.seed);
+    if property == "C15" {
+        return crate::e2d::replay_with_twin(&sub, module);
+    }
     let corpus = build(&sub, vec![module], &subjects::SlotCfg::default());
     if corpus.modules.is_empty() {
         return vec![json!({"signature": "replay-does-not-compile", "message": format!("the module of the replay file no longer compiles: {}", corpus.discarded_samples.first().cloned().unwrap_or_default())})];
